@@ -230,7 +230,11 @@ func Check(prop string, o Options) int {
 	validated := 0
 	nviol := 0
 	var knownSeen []string
-	replayDir := filepath.Join(VerifDir, "replays", prop)
+	outDir := VerifDir
+	if d := os.Getenv("VERIF_OUT"); d != "" {
+		outDir = d // mutant evaluation: keep the committed evidence untouched
+	}
+	replayDir := filepath.Join(outDir, "replays", prop)
 	for i, pd := range pend {
 		if rerr != nil {
 			break
@@ -378,7 +382,7 @@ func Check(prop string, o Options) int {
 	}, meta.Assumptions...)
 	ev.WallS = time.Since(t0).Seconds()
 	ev.Violations = nviol
-	if err := writeJSON(filepath.Join(VerifDir, "evidence", prop+".json"), ev); err != nil {
+	if err := writeJSON(filepath.Join(outDir, "evidence", prop+".json"), ev); err != nil {
 		engineErr("writing evidence: %v", err)
 	}
 	if exit == 4 {
